@@ -751,11 +751,12 @@ func (d *Decoder) decodeArrayToSlice(rv reflect.Value, additional []byte) error 
 		return fmt.Errorf("array exceeds max size: %d", length)
 	}
 	slice := rv
+	var iface reflect.Value
 	switch slice.Kind() {
 	case reflect.Slice:
-		// Set slice to the correct length
-		slice.Grow(int(length))
-		slice.SetLen(int(length))
+		// The slice is grown as items are decoded, so that memory use is
+		// bounded by the input actually read and not by the declared length
+		slice.SetLen(0)
 
 	case reflect.Array:
 		// Check array is long enough and clear extra elements
@@ -768,8 +769,9 @@ func (d *Decoder) decodeArrayToSlice(rv reflect.Value, additional []byte) error 
 		}
 
 	case reflect.Interface:
-		slice.Set(reflect.MakeSlice(slice.Elem().Type(), int(length), int(length)))
-		slice = slice.Elem()
+		iface = slice
+		slice = reflect.New(iface.Elem().Type()).Elem()
+		slice.Set(reflect.MakeSlice(slice.Type(), 0, 0))
 
 	default:
 		return fmt.Errorf("%w: expected a slice type",
@@ -783,7 +785,14 @@ func (d *Decoder) decodeArrayToSlice(rv reflect.Value, additional []byte) error 
 		if err := d.Decode(newVal.Interface()); err != nil {
 			return fmt.Errorf("error decoding array item %d: %w", i, err)
 		}
-		slice.Index(i).Set(newVal.Elem())
+		if slice.Kind() == reflect.Slice {
+			slice.Set(reflect.Append(slice, newVal.Elem()))
+		} else {
+			slice.Index(i).Set(newVal.Elem())
+		}
+	}
+	if iface.IsValid() {
+		iface.Set(slice)
 	}
 
 	return nil
